@@ -616,7 +616,20 @@ def stride_folds(res, tier, okx):
     impl = json.load(open(oj))
     shutil.rmtree(tmp, ignore_errors=True)
     folded = [(c, o) for c, o in zip(cases, impl) if o["folded"]]
-    model = models.run("fold_check", [[c[7], c[1], c[6], c[5], o["n"], o["s"], max(o["l"], 0), max(o["r"], 0)] for c, o in folded]) if okx and folded else []
+    # (the position of the source kernel inside the folded one is ambiguous when its outer columns hold the zero point: every
+    # position that reproduces the folded kernel is the same operator, so one position that satisfies the conditions suffices)
+    qrows, qidx = [], []
+    for k_, (c, o) in enumerate(folded):
+        tot = max(o["l"], 0) + max(o["r"], 0)
+        for l_ in (o.get("ls") or [max(o["l"], 0)]):
+            qrows.append([c[7], c[1], c[6], c[5], o["n"], o["s"], l_, tot - l_])
+            qidx.append(k_)
+    qres = models.run("fold_check", qrows) if okx and qrows else []
+    model = [None] * len(folded)
+    for k_, m_ in zip(qidx, qres):
+        if model[k_] is None or (m_[0] == 1 and model[k_][0] != 1):
+            model[k_] = m_
+    model = [m_ for m_ in model if m_ is not None] if qres else []
     bad = 0
     stats = collections.Counter()
     for (c, o), m in zip(folded, model):
